@@ -14,7 +14,7 @@ INFO = {
                   'rtamt.syntax.ast.parser.ltl.parser_visitor (visitExprId, visitExprLiteral, declarations)', 'rtamt/antlr/grammar/tl/*.g4 (read on every run: the oracle)'],
     'bounds': {'quick': 'texts obtained from 6 templates (16-45 characters) by REPLACING one character, or INSERTING one character, at every position, by an arbitrary Unicode code point 0..0x10FFFF '
                         '(solver variable); interval bounds of every bounded operator as arbitrary non-negative rationals with every unit combination; one arbitrary character at every position of 6 literals with separators / exponents / radix prefixes and at the positions of a text with a constant, a ROS-topic annotation and an assertion; 12 concrete texts with module imports and annotations, 3 concrete 1000-level texts',
-               'thorough': '12 templates, two arbitrary characters at every adjacent pair and a seeded sample of distant pairs'},
+               'thorough': '12 templates, one arbitrary character at every position (replace and insert); two arbitrary characters at a seeded sample of 64 adjacent pairs and ~20 distant pairs (VERIF_C14_PAIRS=all: every adjacent pair)'},
     'outside': 'texts further than two characters from a template (in particular: long texts, deep nesting - termination is observed per explored path only, under a wall cap); module imports and ROS annotations beyond the listed texts; code points whose text is read by rtamt are enumerated by forks for ASCII and represented by the '
                'smallest member of their lexer class beyond ASCII',
     'assumptions': ['"derivable from the grammar" = the text, after the documented appending of a missing trailing ";", is lexed completely by the token rules of LtlLexer.g4 (longest match, first rule wins) '
@@ -563,14 +563,18 @@ def obligations(tier, rng):
         for tail in [';', ';;', '; ;', ';\n', '\n;', ' ;\n;\n', ';;;', ' ', '\n', ';\t']:
             out.append(ob('C14', 'chars', 'tail/%s/T%d/%r' % (kind, ti, tail), template=base + tail, k=0, kind=kind, consts=[list(c) for c in consts], validate=0))
     # two arbitrary characters next to each other
-    if not quick:                 # 2-4 minutes per pair: thorough tier only
-        for ti, (kind, t, consts) in enumerate(temps):
-            L = len(t)
-            for i in range(L - 1):
+    if not quick:                 # 2-4 minutes per pair: thorough tier only, a seeded sample of 64 of the ~480 adjacent pairs
+        import os as _os          # (VERIF_C14_PAIRS=all: every adjacent pair, several hours on 16 cores)
+        adj = [(ti, i) for ti, (kind, t, consts) in enumerate(temps) for i in range(len(t) - 1)]
+        if _os.environ.get('VERIF_C14_PAIRS') != 'all':
+            adj = sorted(rng.sample(adj, 64))
+        for ti, i in adj:
+            kind, t, consts = temps[ti]
+            if True:
                 out.append(ob('C14', 'chars', 'char2/%s/T%d/r@%d/%r' % (kind, ti, i, t), template=_mark(t, i, 'r', 2), k=2, kind=kind, consts=[list(c) for c in consts],
                               max_paths=60000, wall=1500, validate=1))
     if not quick:
-        for n in range(60):
+        for n in range(24):
             ti = rng.randrange(len(temps))
             kind, t, consts = temps[ti]
             i, j = sorted(rng.sample(range(len(t) - 1), 2))
